@@ -8,7 +8,7 @@ literals and (term, format-spec) tokens that the solver compares with the roundi
 import z3
 
 from pysx import engine, loader, shims
-from pysx.harness import CheckBase, main, run_pinned, NotPinned
+from pysx.harness import CheckBase, main, run_pinned, NotPinned, active_findings
 from pysx.strs import SymStr, NumTok, ch_eq, decide, elems, zand, zor
 from pysx.serialmodel import pieces
 from pysx.tokens import has_token
@@ -24,46 +24,111 @@ def load():
     return loader.load_plotink("text_utils", shims.std_overrides(real_tower=False))
 
 
-def unescape_ref(s):
-    """Reference decoder of XML's predefined entities on a SymStr (forks on symbolic characters).
-    Returns a SymStr, or None if an '&' does not start a predefined entity (ill-formed)."""
-    out = []
-    e = s.e
-    i, n = 0, len(e)
+SP, TAB, LF, CR = " ", "\t", "\n", "\r"
+
+
+def _is(c, ch):
+    return decide(ch_eq(c, ch))
+
+
+def xml_read_ref(s, context):
+    """What a standard XML 1.0 parser hands back for the literal text s (a SymStr; forks on symbolic characters)
+    placed in element content (context 'content') or in a quoted attribute value ('attr'):
+      - line ends are normalised first (section 2.11: CR LF and a lone CR become LF);
+      - in an attribute value every literal TAB / LF becomes a space (section 3.3.3, CDATA attributes);
+      - the five predefined entities and numeric character references (&#N; &#xH;) are replaced by their
+        character - a referenced character is not normalised.
+    Returns a SymStr, or None if an '&' does not start such a reference (not well-formed)."""
+    e = list(s.e)
+    # line ends
+    lit, i, n = [], 0, len(e)
     while i < n:
         c = e[i]
-        if decide(ch_eq(c, "&")):
-            hit = False
-            for name, ch in ENT.items():
-                pat = name + ";"
-                if i + 1 + len(pat) <= n and decide(zand(ch_eq(e[i + 1 + k], pat[k]) for k in range(len(pat)))):
-                    out.append(ch)
-                    i += 1 + len(pat)
-                    hit = True
-                    break
-            if not hit:
-                return None
+        if _is(c, CR):
+            if i + 1 < n and _is(e[i + 1], LF):
+                i += 1
+            lit.append(LF)
         else:
+            lit.append(c)
+        i += 1
+    if context == "attr":
+        # no fork needed: the shape does not change
+        lit = [(SP if c in (TAB, LF) else c) if isinstance(c, str) else z3.If(z3.Or(c == 9, c == 10), z3.IntVal(32), c) for c in lit]
+    out, i, n = [], 0, len(lit)
+    while i < n:
+        c = lit[i]
+        if not _is(c, "&"):
             out.append(c)
             i += 1
+            continue
+        hit = False
+        for name, ch in ENT.items():
+            pat = name + ";"
+            if i + 1 + len(pat) <= n and decide(zand(ch_eq(lit[i + 1 + k], pat[k]) for k in range(len(pat)))):
+                out.append(ch)
+                i += 1 + len(pat)
+                hit = True
+                break
+        if hit:
+            continue
+        if i + 1 < n and _is(lit[i + 1], "#"):
+            j = i + 2
+            hexa = j < n and _is(lit[j], "x")
+            if hexa:
+                j += 1
+            digits = "0123456789abcdefABCDEF" if hexa else "0123456789"
+            val, nd = 0, 0
+            while j < n and nd < 8:
+                d = next((x for x in digits if _is(lit[j], x)), None)
+                if d is None:
+                    break
+                val = val * (16 if hexa else 10) + int(d, 16)
+                nd += 1
+                j += 1
+            if nd and j < n and _is(lit[j], ";") and (val in (9, 10, 13) or 0x20 <= val <= 0xD7FF or 0xE000 <= val <= 0xFFFD
+                                                      or 0x10000 <= val <= 0x10FFFF):
+                out.append(chr(val))
+                i = j + 1
+                continue
+        return None
     return SymStr(out)
 
 
-def unescape_py(s):
+def unescape_ref(s):
+    return xml_read_ref(s, "content")
+
+
+def xml_read_py(s, context):
+    """Concrete twin of xml_read_ref (validated against lxml and ElementTree on every run)."""
+    s = s.replace("\r\n", "\n").replace("\r", "\n")
+    if context == "attr":
+        s = s.replace("\t", " ").replace("\n", " ")
     out, i = [], 0
     while i < len(s):
-        if s[i] == "&":
-            for name, ch in ENT.items():
-                if s.startswith(name + ";", i + 1):
-                    out.append(ch)
-                    i += 2 + len(name)
-                    break
-            else:
-                return None
-        else:
+        if s[i] != "&":
             out.append(s[i])
             i += 1
+            continue
+        for name, ch in ENT.items():
+            if s.startswith(name + ";", i + 1):
+                out.append(ch)
+                i += 2 + len(name)
+                break
+        else:
+            import re as _re
+            m = _re.compile(r"&#(?:x([0-9a-fA-F]{1,8})|([0-9]{1,8}));").match(s, i)
+            if not m:
+                return None
+            val = int(m.group(1), 16) if m.group(1) else int(m.group(2))
+            if not (val in (9, 10, 13) or 0x20 <= val <= 0xD7FF or 0xE000 <= val <= 0xFFFD or 0x10000 <= val <= 0x10FFFF):
+                return None
+            out.append(chr(val))
+            i = m.end()
     return "".join(out)
+
+
+def unescape_py(s):
+    return xml_read_py(s, "content")
 
 
 def tb(x):
@@ -137,18 +202,18 @@ def text_pieces(s):
 class Check(CheckBase):
     pid = "C20"
     title = "text helpers"
-    bounds = {"quick": {"xml_escape": "strings of length 0..4, each character symbolic over %r ('x' stands for any other XML-legal character)" % XML_ALPHA,
+    bounds = {"quick": {"xml_escape": "strings of length 0..4, each character any XML-legal code point (#x9 | #xA | #xD | #x20-#xD7FF | #xE000-#xFFFD | #x10000-#x10FFFF), symbolic",
                         "format_hms": "0 <= duration <= 10^7 s: integer milliseconds, milliseconds with two decimals (j/100), seconds = k/1000, and integer seconds (all symbolic)"},
-              "thorough": {"xml_escape": "length 0..6, same alphabet", "format_hms": "as quick"}}
-    outside = ["characters XML forbids; the XML parser itself (the reference decoder is validated against lxml in element content and both attribute quotings)",
+              "thorough": {"xml_escape": "length 0..5, same alphabet", "format_hms": "as quick"}}
+    outside = ["characters XML forbids; the XML parser itself (the reference reader - line-end and attribute-value normalisation, predefined entities, character references - is validated against lxml and ElementTree in element content and both attribute quotings on every run)",
                "C-level rendering of the format specs .3f / 02 / d (tokens carry term + spec)", "float durations that are not multiples of 1 ms; binary64 rounding of duration/1000.0"]
-    stubs = ["str.format of a symbolic number -> token (term, spec)", "reference decoder of the five predefined entities"]
+    stubs = ["str.format of a symbolic number -> token (term, spec)", "reference XML reader (checks/c20.py:xml_read_ref)"]
 
     def functions_encoded(self):
         return loader.encoded("text_utils", ["xml_escape", "format_hms"])
 
     def cases(self, tier):
-        cs = [{"label": "xml/L%d" % n, "kind": "xml", "n": n, "split_depth": 8 if n >= 4 else None} for n in range(0, 5 if tier == "quick" else 7)]
+        cs = [{"label": "xml/L%d" % n, "kind": "xml", "n": n, "split_depth": 8 if n >= 4 else None} for n in range(0, 5 if tier == "quick" else 6)]
         for m in ("ms", "s-milli", "s-int", "ms-vs-s", "ms-frac", "ms-frac-vs-s"):
             cs.append({"label": "hms/" + m, "kind": "hms", "mode": m})
         return cs
@@ -166,7 +231,9 @@ class Check(CheckBase):
             for i in range(case["n"]):
                 c = run.fresh_int("c%d" % i)
                 run.inputs["c%d" % i] = c
-                run._add(z3.Or([c == ord(a) for a in XML_ALPHA]))
+                # any XML-legal character (XML 1.0 production [2] Char), as a code point
+                run._add(z3.Or(c == 9, c == 10, c == 13, z3.And(c >= 0x20, c <= 0xD7FF), z3.And(c >= 0xE000, c <= 0xFFFD),
+                               z3.And(c >= 0x10000, c <= 0x10FFFF)))
                 cs.append(c)
             s = SymStr(cs)
             try:
@@ -178,11 +245,16 @@ class Check(CheckBase):
             if isinstance(out, str):
                 out = SymStr(tuple(out))
             run.prove("xml_escape:no-bare-special-characters", tb(zand(z3.Not(tb(zor(ch_eq(c, x) for x in "<>\"'"))) for c in out.e)) if len(out.e) else z3.BoolVal(True))
-            back = unescape_ref(out)
-            if back is None:
-                run.prove("xml_escape:every-ampersand-starts-an-entity", z3.BoolVal(False), info={"escaped": repr(out)})
-                return
-            run.prove("xml_escape:parser-reads-back-the-original", tb(back.eq_term(s)), info={"escaped": repr(out)})
+            # known finding (listed in known_findings.json): TAB / LF / CR are left bare and are changed by the parser's
+            # line-end and attribute-value normalisation; identified by the input containing one of those characters
+            ws = z3.Or([z3.Or(c == 9, c == 10, c == 13) for c in cs]) if cs else z3.BoolVal(False)
+            ex = [("C20-xml-whitespace", ws)] if "C20-xml-whitespace" in active_findings(self.pid) else []
+            for context in ("content", "attr"):
+                back = xml_read_ref(out, context)
+                if back is None:
+                    run.prove("xml_escape:every-ampersand-starts-a-reference", z3.BoolVal(False), info={"escaped": repr(out)}, exclude=ex)
+                    return
+                run.prove("xml_escape:parser-reads-back-the-original/" + context, tb(back.eq_term(s)), info={"escaped": repr(out)}, exclude=ex)
             return
         mode = case["mode"]
         if mode in ("ms-vs-s", "ms-frac-vs-s"):
@@ -267,19 +339,20 @@ class Check(CheckBase):
             except Exception as ex:
                 return {"input": s, "raised": repr(ex)}
             bad = any(c in out for c in "<>\"'")
-            back = unescape_py(out)
-            if bad or back != s:
-                return {"input": s, "escaped": out, "read_back": back}
-            # also through a real XML parser, in element content and both attribute quotings
+            if bad:
+                return {"input": s, "escaped": out, "bare_special_character": True}
+            # through two real XML parsers, in element content and both attribute quotings
             from lxml import etree
-            for doc, get in (("<a>%s</a>" % out, lambda r: r.text or ""), ('<a b="%s"/>' % out, lambda r: r.get("b")),
-                             ("<a b='%s'/>" % out, lambda r: r.get("b"))):
-                try:
-                    got = get(etree.fromstring(doc))
-                except etree.XMLSyntaxError as ex:
-                    return {"input": s, "escaped": out, "parser": repr(ex)}
-                if got != s and "\r" not in s:
-                    return {"input": s, "escaped": out, "parser_read": got}
+            import xml.etree.ElementTree as ET
+            for pname, parse, err in (("lxml", etree.fromstring, etree.XMLSyntaxError), ("ElementTree", ET.fromstring, ET.ParseError)):
+                for ctx, doc, get in (("content", "<a>%s</a>" % out, lambda r: r.text or ""), ("attr", '<a b="%s"/>' % out, lambda r: r.get("b")),
+                                      ("attr", "<a b='%s'/>" % out, lambda r: r.get("b"))):
+                    try:
+                        got = get(parse(doc))
+                    except err as ex:
+                        return {"input": s, "escaped": out, "parser": pname, "error": repr(ex)}
+                    if got != s:
+                        return {"input": s, "escaped": out, "placed_in": ctx, "parser": pname, "read_back": got}
             return None
         mode = label.split("/")[1]
         from fractions import Fraction
@@ -325,31 +398,51 @@ class Check(CheckBase):
         return None if a == b else {"ms": ms, "format_hms(ms, True)": a, "format_hms(ms/1000.0)": b}
 
     def validate(self, tier, seed):
-        """(1) reference entity decoder == lxml on concrete strings in element content and both attribute quotings;
+        """(1) reference XML reader (line-end and attribute-value normalisation, predefined entities, character references) ==
+        lxml == ElementTree on concrete strings in element content and both attribute quotings;
         (2) shim-loaded xml_escape on constant symbolic strings == native; (3) token decoding of format_hms == native text."""
         import random
         from lxml import etree
         rnd = random.Random(seed)
         tu_n = loader.native("text_utils")
         n = 0
-        samples = ["", "a&b", "&amp;", "<x>", "\"q\"", "it's", "&lt;&gt;", "AT&amp;T", "&#38;", "a;b&;", "&apos"]
+        import xml.etree.ElementTree as ET
+        samples = ["", "a&b", "&amp;", "<x>", "\"q\"", "it's", "&lt;&gt;", "AT&amp;T", "&#38;", "a;b&;", "&apos", "a\tb", "a\nb", "a\rb", "a\r\nb",
+                   "\r", "\t\n", "x\r\r\ny", "\U0001F58A pen", "\u00e9\u4e2d"]
+        alpha = XML_ALPHA + "\t\n\r\u00e9\U00010000"
         for _ in range(60):
-            samples.append("".join(rnd.choice(XML_ALPHA) for _ in range(rnd.randint(0, 8))))
+            samples.append("".join(rnd.choice(alpha) for _ in range(rnd.randint(0, 8))))
+        # documents that use numeric character references (what a whitespace-preserving escaper would emit)
+        raw_docs = ["a&#9;b", "a&#10;b&#13;c", "&#x9;&#xA;&#xD;", "x&#13;&#10;y", "&#38;&#60;", "&#x1F58A;", "a\r&#13;\nb"]
         for s in samples:
             esc = tu_n.xml_escape(s)
-            ref = unescape_py(esc)
-            for doc, get in (("<a>%s</a>" % esc, lambda r: r.text or ""), ('<a b="%s"/>' % esc, lambda r: r.get("b")),
-                             ("<a b='%s'/>" % esc, lambda r: r.get("b"))):
-                assert get(etree.fromstring(doc)) == ref, "reference decoder disagrees with lxml on %r" % esc
+            for ctx, doc, get in (("content", "<a>%s</a>" % esc, lambda r: r.text or ""), ("attr", '<a b="%s"/>' % esc, lambda r: r.get("b")),
+                                  ("attr", "<a b='%s'/>" % esc, lambda r: r.get("b"))):
+                ref = xml_read_py(esc, ctx)
+                assert get(etree.fromstring(doc)) == ref, "reference reader disagrees with lxml on %r (%s)" % (esc, ctx)
+                assert get(ET.fromstring(doc)) == ref, "reference reader disagrees with ElementTree on %r (%s)" % (esc, ctx)
+
             def hx(run):
                 g = load().xml_escape(SymStr(tuple(s)))
                 return g.concretize() if isinstance(g, SymStr) else g
             got = run_pinned(hx)
             assert got == esc, "translator validation failed for xml_escape(%r): %r vs %r" % (s, got, esc)
-            def hb(run):
-                b = unescape_ref(SymStr(tuple(esc)))
-                return b.concretize() if b is not None else None
-            assert run_pinned(hb) == ref
+            for ctx in ("content", "attr"):
+                def hb(run):
+                    b = xml_read_ref(SymStr(tuple(esc)), ctx)
+                    return b.concretize() if b is not None else None
+                assert run_pinned(hb) == xml_read_py(esc, ctx), "symbolic and concrete reference readers differ on %r (%s)" % (esc, ctx)
+            n += 1
+        for raw in raw_docs:
+            for ctx, doc, get in (("content", "<a>%s</a>" % raw, lambda r: r.text or ""), ("attr", '<a b="%s"/>' % raw, lambda r: r.get("b"))):
+                ref = xml_read_py(raw, ctx)
+                assert get(etree.fromstring(doc)) == ref, "reference reader disagrees with lxml on %r (%s)" % (raw, ctx)
+                assert get(ET.fromstring(doc)) == ref, "reference reader disagrees with ElementTree on %r (%s)" % (raw, ctx)
+
+                def hb2(run):
+                    b = xml_read_ref(SymStr(tuple(raw)), ctx)
+                    return b.concretize() if b is not None else None
+                assert run_pinned(hb2) == ref
             n += 1
         # the symbolic regular-expression engine (used when code hands the symbolic string to re) against CPython's re
         import re as real_re
